@@ -28,10 +28,10 @@ TupSet(sq) == {<<sq[i][1], sq[i][2]>> : i \in DOMAIN sq}
 Tup4Set(sq) == {<<sq[i][1], sq[i][2], sq[i][3], sq[i][4]>> : i \in DOMAIN sq}
 
 \* an encrypted signature the observer cannot resolve (made with a DH value nobody's exponent is known for)
-Opaque(xs) == IF ~xs.ok \/ xs.s1 = -1 \/ xs.s2 = -1
+Opaque(xs) == IF ~xs.ok \/ Unknown(xs.s1) \/ Unknown(xs.s2)
               THEN [ok |-> FALSE, kind |-> "?", s1 |-> 0, s2 |-> 0, pub |-> "?", kid |-> 0, sig |-> FALSE] ELSE xs
 OpaqueMsg(m) == IF m.t \in {"RS", "SIG"} THEN [m EXCEPT !.xs = Opaque(@)] ELSE m
-OpaquePair(pr) == IF pr[1] = -1 \/ pr[2] = -1 THEN <<-1, -1>> ELSE pr
+OpaquePair(pr) == IF Unknown(pr[1]) \/ Unknown(pr[2]) THEN <<-1, -1>> ELSE pr
 
 \* logged message -> specification message
 NormMsg(m) ==
@@ -263,7 +263,7 @@ PropViolations(e, o) ==
         THEN {<<"C10", "the received extra symmetric key, usage or usage data differ from what was sent">>} ELSE {})
   \cup (IF e.ev # "Done" /\ \E i \in DataOuts(e) : e.out[i].mac[1] = 0 \/ e.out[i].text = -1
         THEN {<<"C10", "an emitted data message is not authenticated/encrypted with the keys the specification derives">>} ELSE {})
-  \cup (IF e.ev # "Done" /\ \E i \in DOMAIN e.out : e.out[i].t \in {"RS", "SIG"} /\ (~e.out[i].xs.ok \/ ~e.out[i].xs.sig) /\ st[p].agy # -1 /\ e.st.agy # -1
+  \cup (IF e.ev # "Done" /\ \E i \in DOMAIN e.out : e.out[i].t \in {"RS", "SIG"} /\ (~e.out[i].xs.ok \/ ~e.out[i].xs.sig) /\ ~Unknown(st[p].agy) /\ ~Unknown(e.st.agy)
         THEN {<<"C10", "an emitted signature message does not verify under the keys the specification derives">>} ELSE {})
   \cup (IF e.ev = "Done" /\ o.fam = "randfail" /\
              ~((\E i \in DOMAIN o.delivered["B"] : o.delivered["B"][i][1] = 9001) /\ (\E i \in DOMAIN o.delivered["A"] : o.delivered["A"][i][1] = 9002))
